@@ -169,6 +169,14 @@ def replay(pid, payload, seed):
                       "failing_input_found": bool(why)})
             return ("replay", "replayed case still fails", p)
         return None
+    if payload.get("engine") == "fc":
+        bad, a, b = fc_diff("replay-" + pid, [("replay", payload["case"])])
+        why = mon_fc(payload["case"], a.get("replay", []))
+        if bad or why:
+            p = dict(payload)
+            p.update({"impl": a.get("replay"), "model": b.get("replay"), "monitor": why, "failing_input_found": bool(why)})
+            return ("replay", "replayed schedule still fails", p)
+        return None
     if payload.get("engine") == "pure":
         bad, a, b = puresweep("replay-" + pid, [payload["op"]])
         mon = PROPS[pid].get("pure_monitor")
@@ -587,3 +595,116 @@ reg("C01", [eng_data_random(M.mon_payload, {"PUB"}, streams=True, tag="data-stre
                "removed; expiry requeues everything held; a pull on a non-empty queue delivers; nothing foreign is ever "
                "delivered. " + SEQ_NOTE,
     level_note="The concurrent reading (publish racing create/delete, mailbox FIFO) is not yet a Coq theorem.")
+
+
+# ================================================================= C19 flow control (scheduled real threads)
+
+def fc_diff(tag, cases):
+    d = workdir(tag)
+    cp = os.path.join(d, "cases.txt")
+    open(cp, "w").write("".join("CASE %s\n%s\nEND\n" % (cid, "\n".join(lines)) for cid, lines in cases))
+    io, mo = os.path.join(d, "impl.out"), os.path.join(d, "model.out")
+    sh([HARNESS, "fcsched", cp, io], timeout=3000)
+    sh([MODELDRV, "fc", cp, mo], timeout=3000)
+    a, b = parse_results(io), parse_results(mo)
+    bad = [(cid, lines, a.get(cid, ["<no result>"]), b.get(cid, ["<no result>"])) for cid, lines in cases
+           if a.get(cid) != b.get(cid)]
+    return bad, a, b
+
+
+def mon_fc(lines, res):
+    """C19 on the implementation's own output: at the end of the schedule, if no inc/dec is mid-flight and both
+    counters are below their limits, nobody may be parked; and a parked thread never takes a step."""
+    cfg = [int(x) for x in lines[0].split(" ")[1:]]
+    kinds = [l.split(" ")[1] for l in lines[1:-1]]
+    if any(r.startswith("!HANG") for r in res):
+        return "C19-hang: a released thread never reached its next program point"
+    fin = res[-1].split(" ") if res else ["?"]
+    if fin[0] != "FINAL":
+        return None
+    m, b, states = int(fin[1]), int(fin[2]), fin[3:]
+    busy = any(k in "ID" and s in ("fetch_msgs", "notify") for k, s in zip(kinds, states))
+    if not busy and m < cfg[0] and b < cfg[1] and "parked" in states:
+        return ("C19-lost-wakeup: counters (%d msgs, %d bytes) are below the limits (%d, %d), no inc/dec is in progress, "
+                "and a waiter is parked" % (m, b, cfg[0], cfg[1]))
+    return None
+
+
+def gen_fc_random(rng, i):
+    nw, nm = rng.randrange(1, 4), rng.randrange(1, 4)
+    maxm, maxb = rng.choice([1, 2, 5]), rng.choice([1, 8, 16])
+    im, ib = rng.randrange(0, maxm + 2), rng.randrange(0, maxb + 3)
+    th = ["T W"] * nw + ["T %s %d %d" % (rng.choice("IDD"), rng.randrange(0, maxb + 2), rng.randrange(0, maxm + 1))
+                         for _ in range(nm)]
+    rng.shuffle(th)
+    sched = [str(rng.randrange(0, len(th) + (1 if rng.random() < 0.1 else 0))) for _ in range(rng.randrange(20, 80))]
+    return ("fr%d" % i, ["CFG %d %d %d %d" % (maxm, maxb, im, ib)] + th + ["SCHED " + " ".join(sched)])
+
+
+def gen_fc_enum(length):
+    """One waiter, one dec that frees capacity: every schedule of the given length over the two threads
+    (covers every position of the dec's three steps relative to the waiter's check / snapshot / poll)."""
+    out = []
+    for cfg, th in (("CFG 1 1 1 1", ["T W", "T D 1 1"]), ("CFG 2 8 2 3", ["T W", "T D 0 1"]),
+                    ("CFG 1 4 0 4", ["T D 4 0", "T W"]), ("CFG 1 1 1 1", ["T W", "T I 0 0"])):
+        for bits in itertools.product("01", repeat=length):
+            out.append(("fe-%s-%s" % (cfg.replace(" ", "_"), "".join(bits)), [cfg] + th + ["SCHED " + " ".join(bits)]))
+    return out
+
+
+def eng_fc(ctx):
+    rng = random.Random(ctx.seed + 19)
+    cases = gen_fc_enum(ctx.n(9, 12)) + [gen_fc_random(rng, i) for i in range(ctx.n(600, 20000))]
+    # two waiters, one releasing dec: all schedules of a fixed multiset
+    bad, a, b = fc_diff("C19-fcsched", cases)
+    st = ctx.stats
+    st["evaluations"] += len(cases)
+    st["traces"] += len(cases) - len(bad)
+    s = st["streams"].setdefault("fcsched", {"cases": 0, "parked_finals": 0, "steps": 0})
+    s["cases"] += len(cases)
+    for cid, lines in cases:
+        res = a.get(cid, [])
+        s["steps"] += max(0, len(res) - 1)
+        if any(" parked" in r for r in res):
+            st["distinct"].add(hashlib.sha1("\n".join(lines).encode()).hexdigest())
+        if res and "parked" in res[-1]:
+            s["parked_finals"] += 1
+    if cases:
+        st["samples"].append({"stream": "fcsched", "case": cases[-1][1], "impl": a.get(cases[-1][0])})
+    out = []
+    found = None
+    if bad:
+        for cid, lines in cases:
+            why = mon_fc(lines, a.get(cid, []))
+            if why:
+                found = (cid, lines, why)
+                break
+        cid, lines, x, y = bad[0]
+        payload = {"engine": "fc", "stream": "fcsched", "case": lines, "impl": x, "model": y,
+                   "disagreeing_cases": len(bad), "cases_in_stream": len(cases),
+                   "broken": "correspondence stream 'fcsched' (Deltio.Model.FcDriver.fc_file vs flow_control.rs under the gate scheduler)"}
+        if found:
+            payload.update({"failing_input_found": True, "monitor": found[2], "case": found[1], "impl": a.get(found[0]),
+                            "signature": "monitor:" + found[2].split(":")[0]})
+            out.append(("violation", "fcsched: " + found[2], payload))
+        else:
+            payload.update({"failing_input_found": False, "signature": "correspondence:fcsched"})
+            out.append(("correspondence", "fcsched: %d of %d schedules disagree with the model" % (len(bad), len(cases)), payload))
+    return out
+
+
+reg("C19", [eng_fc],
+    rule="fcsched: the real FlowControl run one atomic operation at a time on OS threads held at gate points; every "
+         "schedule of length 9 (thorough 12) over one waiter and one mutator for four configurations, plus random "
+         "schedules of 1-3 waiters and 1-3 inc/dec calls with wrap-around deltas. non-trivial = some waiter parked",
+    monitor=None, title="Flow-control waiters never miss free capacity", design_ref="7/C19",
+    technique="Coq: inductive invariant over all interleavings of atomic steps (any number of threads); scheduled "
+              "execution of the real code compared step by step with the model",
+    level_text="Proved for every reachable state of the small-step model (sequentially consistent interleaving of the atomic "
+               "operations, any number of waiters and mutators): a waiter returns only after loading both counters below "
+               "the limits; a parked waiter has missed no completed notification; with no inc/dec in progress and free "
+               "capacity nobody is parked and every waiter returns within 4 steps; one notify releases everybody. The model "
+               "is tied to flow_control.rs by running the real code under an explicit scheduler at the same granularity.",
+    level_note="Weaker-than-SC memory orderings and cancellation of a waiting task are outside the model; tokio's Notify "
+               "is modelled as snapshot counter + waiter set (notify_waiters stores no permit).",
+    assumptions=["sequential consistency of the atomic operations", "tokio::sync::Notify behaves as modelled"])
